@@ -34,3 +34,26 @@ package account
 //@   invariant @loop 0: forallKeys(a, lastVersions, forallKeys(b, lastVersions, a != b ==> lastVersions[a] != lastVersions[b]))
 //@   invariant @loop 0: forall(k, i + 1, len(h.changeLogs), has(lastVersions, h.changeLogs[k].Address) && has(lastVersions[h.changeLogs[k].Address], h.changeLogs[k].LogType) && h.changeLogs[k].Version >= lastVersions[h.changeLogs[k].Address][h.changeLogs[k].LogType])
 //@   invariant @loop 0: forall(k, i + 1, len(h.changeLogs), ctr(h, h.changeLogs[k]) < h.changeLogs[k].Version)
+
+// undo / redo of a balance log write back the journalled value (the values are big.Int structs boxed in the log's interface fields);
+// NewBalanceLog journals the current balance as the old value: undo after set restores it
+//@ func undoBalance
+//@   props C07
+//@   requires c != nil && processor != nil
+//@   modifies gh("balance", processor.GetAccount(c.Address))
+//@   ensures result == nil <==> typeIs(c.OldVal, big.Int)
+//@   ensures result == nil ==> types.balanceOf(processor.GetAccount(c.Address)) == c.OldVal.(big.Int)
+//@   ensures result != nil ==> types.balanceOf(processor.GetAccount(c.Address)) == old(types.balanceOf(processor.GetAccount(c.Address)))
+//@   panics_if typeIs(c.OldVal, big.Int) && c.OldVal.(big.Int) < 0
+//@ func redoBalance
+//@   props C07
+//@   requires c != nil && processor != nil
+//@   modifies gh("balance", processor.GetAccount(c.Address))
+//@   ensures result == nil <==> typeIs(c.NewVal, big.Int)
+//@   ensures result == nil ==> types.balanceOf(processor.GetAccount(c.Address)) == c.NewVal.(big.Int)
+//@   panics_if typeIs(c.NewVal, big.Int) && c.NewVal.(big.Int) < 0
+//@ func NewBalanceLog
+//@   props C07
+//@   requires processor != nil && newBalance != nil
+//@   ensures result != nil && fresh(result) && result.LogType == BalanceLog && typeIs(result.OldVal, big.Int) && typeIs(result.NewVal, big.Int)
+//@   ensures result.OldVal.(big.Int) == old(types.balanceOf(processor.GetAccount(address))) && result.NewVal.(big.Int) == val(newBalance)
